@@ -8,6 +8,9 @@ case "$P" in
   -R:*) git show "${P#-R:}" | git apply -R || exit 2 ;;
   *) git apply "$P" || exit 2 ;;
 esac
+cp /verif/evidence/$PROP.json /tmp/.evidence_$PROP.json 2>/dev/null
 cd /verif && timeout 1800 ./check "$PROP" --tier "$TIER"; RC=$?
+# evidence written on a modified tree is not evidence: put the one of the unchanged tree back
+[ -f /tmp/.evidence_$PROP.json ] && mv /tmp/.evidence_$PROP.json /verif/evidence/$PROP.json
 cd /repo && git checkout -- . 
 echo "exit=$RC"
